@@ -22,6 +22,7 @@
 #include <dirent.h>
 #include <signal.h>
 #include <math.h>
+#include <sys/mman.h>
 
 extern int save_svalue_depth;
 extern int *save_svalue_sizes;
@@ -847,6 +848,101 @@ static void names_elem (long idx) {
   vx_count (0, 1);
 }
 
+/* ------------------------------------------------------------------ history: what one restore leaves behind for the next
+ * Driver booted with MaxArraySize 8 / MaxMappingSize 8 so that a restore can be refused by error() in the middle of a
+ * nested container.  All histories of length 2..3 over {restore of each of 9 texts through restore_variable,
+ * restore_object, restore_object(,1); save_variable of a value}; oracle: every step's outcome (value or error) is the
+ * outcome of the same step in a fresh process, whatever came before. */
+#define HLIMIT 8
+static const char *HTEXT[] = {
+  "42",                                         /* valid scalar */
+  "({1,2,})",                                   /* valid flat array */
+  "({1,({2,3,}),([4:5,]),})",                   /* valid nested */
+  "([1:2,])",                                   /* valid flat mapping */
+  "({1,({0,0,0,0,0,0,0,0,0,}),})",              /* nested array of limit+1 */
+  "({1,([1:1,2:1,3:1,4:1,5:1,6:1,7:1,8:1,9:1,]),})",   /* nested mapping of limit+1 */
+  "({0,0,0,0,0,0,0,0,0,})",                     /* top-level array of limit+1 */
+  "({1,({2,(x,}),})",                           /* damaged: refused in the middle of a container */
+  "(/1,({2,}),/)",                              /* valid class with a nested array */
+};
+#define NHT (int) (sizeof HTEXT / sizeof HTEXT[0])
+#define NHOP (NHT * 3 + 1)      /* text x route, + save_variable */
+static const char *HROUTE[] = { "restore_variable", "restore_object", "restore_object-noclear" };
+typedef struct { char out[NHOP][200]; } hbase_t;
+static hbase_t *hbase;          /* outcome of each op in a fresh process (shared memory, filled at start-up) */
+
+static void hist_step (int op, char *out, size_t n) {
+  if (op == NHT * 3) {
+    svalue_t e[2], in[1]; in[0] = V_int (2); e[0] = V_int (1); e[1] = V_arr (1, in);
+    svalue_t v = V_arr (2, e);
+    struct sv_arg s = { &v, 0, 0 };
+    if (hx_guard (sv_fn, &s)) snprintf (out, n, "error: %.150s", hx_last_error);
+    else { snprintf (out, n, "text %.150s", s.text); FREE_MSTR (s.text); }
+    free_svalue (&v, "c16");
+    return;
+  }
+  int t = op / 3, route = op % 3;
+  if (route == 0) {
+    char *work = strdup (HTEXT[t]);
+    svalue_t r = V_int (0);
+    struct rv_arg a = { &r, work, 0, 0 };
+    if (hx_guard (rv_fn, &a)) snprintf (out, n, "error: %.150s", hx_last_error);
+    else { snprintf (out, n, "value %.150s", hx_canon_s (&r)); free_svalue (&r, "c16"); }
+    free (work);
+  } else {
+    char file[300]; snprintf (file, sizeof file, "#/c16/o.c\nmarker 9\nv %s\nbv 3\n", HTEXT[t]);
+    set_var (iv, V_str (OLDSTR)); set_var (imarker, V_int (41)); set_var (ibv, V_str ("oldbv"));
+    fs_spit ("hs.o", file, strlen (file));
+    struct so_arg r = { "hs", route == 2, -9 };
+    int err = hx_guard (ro_fn, &r);
+    char e1[120] = ""; if (err) snprintf (e1, sizeof e1, "error: %.100s", hx_last_error); else snprintf (e1, sizeof e1, "returned %d", r.ret);
+    snprintf (out, n, "%s; v=%.60s bv=%.20s", e1, hx_canon_s (&O->variables[iv]), hx_canon_s (&O->variables[ibv]));
+  }
+  for (char *c = out; *c; c++) if (*c == '\n') *c = ' ';
+}
+static const char *hop_name (int op, char *b, size_t n) {
+  if (op == NHT * 3) snprintf (b, n, "save_variable(({1,({2})}))"); else snprintf (b, n, "%s %s", HROUTE[op % 3], HTEXT[op / 3]);
+  return b;
+}
+static void init_hbase (void) {
+  hbase = mmap (0, sizeof *hbase, PROT_READ | PROT_WRITE, MAP_SHARED | MAP_ANONYMOUS, -1, 0);
+  char dir[PATH_MAX]; snprintf (dir, sizeof dir, "%s/hb", scratch_base); mkdir (dir, 0755);
+  for (int op = 0; op < NHOP; op++) {
+    fflush (0);
+    pid_t pid = fork ();
+    if (pid == 0) { if (chdir (dir)) {} hist_step (op, hbase->out[op], sizeof hbase->out[op]); __real__exit (0); }
+    int st; while (waitpid (pid, &st, 0) == -1 && errno == EINTR) ;
+    if (!hbase->out[op][0]) snprintf (hbase->out[op], sizeof hbase->out[op], "(process died)");
+  }
+}
+static long hist_total (void) { return (long) NHOP * NHOP + (long) NHOP * NHOP * NHOP; }
+static int hist_decode (long idx, int *ops) {
+  if (idx < (long) NHOP * NHOP) { ops[0] = (int) (idx / NHOP); ops[1] = (int) (idx % NHOP); return 2; }
+  idx -= (long) NHOP * NHOP;
+  ops[0] = (int) (idx / (NHOP * NHOP)); ops[1] = (int) (idx / NHOP % NHOP); ops[2] = (int) (idx % NHOP);
+  return 3;
+}
+static void hist_elem (long idx) {
+  int ops[3], n = hist_decode (idx, ops);
+  char out[200], nm[3][160];
+  safe_apply_master_ob ("clear_errors", 0);
+  for (int i = 0; i < n; i++) hop_name (ops[i], nm[i], sizeof nm[i]);
+  for (int i = 0; i < n; i++) {
+    hist_step (ops[i], out, sizeof out);
+    vx_obs ("  step %d %s -> %s", i, nm[i], out);
+    if (selftest == 4 && i == 1) strcat (out, "!");       /* self-test: the model expects something else */
+    if (strcmp (out, hbase->out[ops[i]])) {
+      snprintf (ctx_key, sizeof ctx_key, "history:%s", ops[i] == NHT * 3 ? "save_variable" : HROUTE[ops[i] % 3]);
+      snprintf (desc_cur, sizeof desc_cur, "history [%s] [%s]%s%s%s", nm[0], nm[1], n == 3 ? " [" : "", n == 3 ? nm[2] : "", n == 3 ? "]" : "");
+      fail (strncmp (hbase->out[ops[i]], "error", 5) && strncmp (hbase->out[ops[i]], "returned", 8) && !strncmp (out, "error", 5) ? "valid-text-refused-after-earlier-error" : "outcome-depends-on-what-ran-before",
+            "step %d gives \"%s\", in a fresh process it gives \"%s\"", i, out, hbase->out[ops[i]]);
+      break;
+    }
+  }
+  vx_count (0, 1);
+  vx_count (1, n);
+}
+
 /* ------------------------------------------------------------------ dispatch */
 static void elem_body (long idx);
 static void describe (long idx, char *buf, size_t len);
@@ -883,6 +979,7 @@ static void elem_body (long idx) {
   else if (!strcmp (part, "struct")) struct_elem (idx);
   else if (!strcmp (part, "chain")) chain_elem (idx);
   else if (!strcmp (part, "names")) names_elem (idx);
+  else if (!strcmp (part, "history")) hist_elem (idx);
   else if (!strcmp (part, "damage")) damage_elem (idx);
   else if (!strcmp (part, "strings")) strings_elem (idx);
   else if (!strcmp (part, "crash")) { if (idx < crash_total () - NTORN) crash_elem (idx); else torn_elem (idx - (crash_total () - NTORN)); }
@@ -922,6 +1019,10 @@ static void describe (long idx, char *buf, size_t len) {
     snprintf (buf, len, "restore_svalue/safe_restore_svalue of every string of length %d over %s starting with '%s'", L, SSYMS, pre);
   } else if (!strcmp (part, "chain")) {
     snprintf (buf, len, "%d nested containers of kind %s (limit %d)", CHAIN_N[idx % NCHAIN_N], CHAIN_KIND[idx / NCHAIN_N], MAX_SAVE_SVALUE_DEPTH);
+  } else if (!strcmp (part, "history")) {
+    int ops[3], n = hist_decode (idx, ops); char nm[160]; size_t k = 0;
+    k += (size_t) snprintf (buf + k, len - k, "MaxArraySize/MaxMappingSize %d; history:", HLIMIT);
+    for (int i = 0; i < n && k < len; i++) k += (size_t) snprintf (buf + k, len - k, " [%s]", hop_name (ops[i], nm, sizeof nm));
   } else if (!strcmp (part, "names")) {
     snprintf (buf, len, "save_object/restore_object(\"%s\") %s", NAMES[idx / 2], idx % 2 ? "through the efuns" : "through the C entry points");
   } else if (!strcmp (part, "crash")) {
@@ -957,7 +1058,7 @@ int main (int argc, char **argv) {
     snprintf (dst, sizeof dst, "%s/%s", boot, copy[i]);
     if (fs_copy_tree (src, dst)) { fprintf (stderr, "cannot copy %s\n", src); return 2; }
   }
-  hx_boot (boot, "", 0);
+  hx_boot (boot, !strcmp (part, "history") ? "MaxArraySize 8\nMaxMappingSize 8\n" : "", 0);
   vx_count_name (0, "elements_done");
   vx_count_name (1, "values_or_texts");
   vx_count_name (2, "restores_refused");
@@ -988,6 +1089,7 @@ int main (int argc, char **argv) {
   else if (!strcmp (part, "struct")) total = (cntV[DEPTH] + STRUCT_BLOCK - 1) / STRUCT_BLOCK;
   else if (!strcmp (part, "chain")) total = NCHAIN_N * 5;
   else if (!strcmp (part, "names")) total = NNAMES * 2;
+  else if (!strcmp (part, "history")) { init_hbase (); total = hist_total (); }
   else if (!strcmp (part, "damage")) total = damage_total ();
   else if (!strcmp (part, "strings")) total = strings_total ();
   else if (!strcmp (part, "crash")) total = crash_total ();
